@@ -52,6 +52,8 @@ type Ctx struct {
 	fnDecls  map[*types.Func]*ast.FuncDecl
 	declPkg  map[*ast.FuncDecl]*packages.Package
 	keysSeen map[string]int
+	dyn      map[*types.Func][]*types.Func
+	dynSites map[dynSiteKey][]*types.Func
 }
 
 func Load(repo, tier string) (*Ctx, error) {
